@@ -9,6 +9,7 @@ import (
 	"fmt"
 	"strconv"
 	"strings"
+	"sync"
 	"time"
 	"unsafe"
 
@@ -109,6 +110,7 @@ type Spec struct {
 
 	// retry
 	MaxRetries   int
+	ViaAttempts  bool // configure through WithMaxAttempts(MaxRetries+1) instead of WithMaxRetries
 	Abort        []Cond
 	ReturnLast   bool
 	Delay        time.Duration
@@ -275,12 +277,15 @@ func scriptStr(sc []Out) string {
 
 // Event is one listener call.
 type Event struct {
-	Seq    int // position in the execution's combined log of events and probe records
-	Tick   int
-	Policy int // index in the stack, -1 = executor
-	Name   string
-	At     int64
-	Thread int
+	Exe     int // execution the event belongs to (from a context value; -1 if unknown)
+	EndTick int // logical clock when the listener returned (fallback failure listener only)
+	Seq0    int // value of the log position when the listener was entered (statistics are read between Seq0 and Seq)
+	Seq     int // position in the execution's combined log of events and probe records
+	Tick    int
+	Policy  int // index in the stack, -1 = executor
+	Name    string
+	At      int64
+	Thread  int
 	// statistics as seen by the listener
 	Attempts, Executions, Retries, Hedges int
 	HasStats                              bool
@@ -304,10 +309,12 @@ func (e Event) String() string {
 
 // Inv is one invocation of the wrapped function.
 type Inv struct {
-	Tick       int
-	Index      int
-	Start, End int64
-	Thread     int
+	SeqIn, SeqOut int // positions in the combined log
+	SeqRead       int // log position after the statistics were read at entry
+	Tick          int
+	Index         int
+	Start, End    int64
+	Thread        int
 	// statistics at entry
 	Attempts, Executions, Retries, Hedges int
 	IsHedge, IsRetry, IsFirst             bool
@@ -339,6 +346,7 @@ type Env struct {
 
 	Recs       []*Rec
 	seq        int
+	openApps   int
 	appCount   []int
 	ProbeStats bool
 
@@ -349,6 +357,7 @@ type Env struct {
 	DoneAt         int64
 	Ctx            context.Context
 	Exes           []*Exe
+	ExecStart      int64 // virtual instant at which the current execution started
 	OnEnter        func(x *Exe, inv *Inv)
 	Held           int // permits held through a standalone API
 	Notes          string
@@ -360,6 +369,22 @@ type Env struct {
 
 //go:norace
 func (env *Env) tick() int { env.Tick++; return env.Tick }
+
+//go:norace
+func (env *Env) seqNow() int { return env.seq }
+
+//go:norace
+func (env *Env) nextSeq() int { env.seq++; return env.seq }
+
+//go:norace
+func (env *Env) fbInc() { env.FbCalls++ }
+
+//go:norace
+func (env *Env) setEndTick(idx int) {
+	if idx >= 0 && idx < len(env.Events) {
+		env.Events[idx].EndTick = env.Tick
+	}
+}
 
 // obs makes a harness observation an event that conflicts with every other observation, so that
 // the state cache explores both orders of two observations in different threads.
@@ -375,19 +400,49 @@ func (env *Env) note(s string) { env.Notes += s }
 
 // MapCache is an instrumented cachepolicy.Cache.
 type MapCache struct {
-	M    map[string]int
-	Gets []string
-	Sets []string
+	Safe      bool
+	mu        sync.Mutex
+	env       *Env
+	GetSeq    []int // position of each Get / Set in the execution's combined log
+	SetSeq    []int
+	GetFound  []bool
+	NGets     int
+	NGetsExec int // lookups during the current execution
+	M         map[string]int
+	Gets      []string
+	Sets      []string
+}
+
+// Safe makes the cache usable from concurrent executions (the library requires that of a Cache).
+func (c *MapCache) lock() {
+	if c.Safe {
+		c.mu.Lock()
+	}
+}
+
+func (c *MapCache) unlock() {
+	if c.Safe {
+		c.mu.Unlock()
+	}
 }
 
 func (c *MapCache) Get(key string) (int, bool) {
+	c.lock()
+	defer c.unlock()
 	c.Gets = append(c.Gets, key)
+	c.NGets++
+	c.NGetsExec++
 	v, ok := c.M[key]
+	c.GetSeq = append(c.GetSeq, c.env.nextSeq())
+	c.GetFound = append(c.GetFound, ok)
 	return v, ok
 }
 
 func (c *MapCache) Set(key string, value int) {
+	c.lock()
+	defer c.unlock()
 	c.Sets = append(c.Sets, key+"="+strconv.Itoa(value))
+	c.SetSeq = append(c.SetSeq, c.env.nextSeq())
 	c.M[key] = value
 }
 
@@ -432,8 +487,15 @@ func (env *Env) attemptEv(p int, name string) func(failsafe.ExecutionEvent[int])
 	return func(e failsafe.ExecutionEvent[int]) {
 		vrt.EnterUser()
 		defer vrt.ExitUser()
-		env.ev(Event{Policy: p, Name: name, HasStats: true, Attempts: e.Attempts(), Executions: e.Executions(), Retries: e.Retries(), Hedges: e.Hedges(),
+		env.obs()
+		s0 := env.seqNow()
+		env.ev(Event{Exe: exeOf(e.Context()), Seq0: s0, Policy: p, Name: name, HasStats: true, Attempts: e.Attempts(), Executions: e.Executions(), Retries: e.Retries(), Hedges: e.Hedges(),
 			LastV: e.LastResult(), LastE: e.LastError(), IsHedge: e.IsHedge()})
+		if name == "failure" && p >= 0 && env.Stack[p].Kind == KFallback && !env.Quiet {
+			idx := len(env.Events) - 1
+			env.obs()
+			env.setEndTick(idx)
+		}
 	}
 }
 
@@ -441,7 +503,9 @@ func (env *Env) doneEv(p int, name string) func(failsafe.ExecutionDoneEvent[int]
 	return func(e failsafe.ExecutionDoneEvent[int]) {
 		vrt.EnterUser()
 		defer vrt.ExitUser()
-		env.ev(Event{Policy: p, Name: name, HasStats: true, Attempts: e.Attempts(), Executions: e.Executions(), Retries: e.Retries(), Hedges: e.Hedges(), V: e.Result, E: e.Error})
+		env.obs()
+		s0 := env.seqNow()
+		env.ev(Event{Exe: exeOf(e.Context()), Seq0: s0, Policy: p, Name: name, HasStats: true, Attempts: e.Attempts(), Executions: e.Executions(), Retries: e.Retries(), Hedges: e.Hedges(), V: e.Result, E: e.Error})
 	}
 }
 
@@ -458,6 +522,14 @@ func (env *Env) build(i int, s Spec) failsafe.Policy[int] {
 	switch s.Kind {
 	case KRetry:
 		b := retrypolicy.Builder[int]().WithMaxRetries(s.MaxRetries)
+		if s.ViaAttempts {
+			b = retrypolicy.Builder[int]()
+			if s.MaxRetries == -1 {
+				b = b.WithMaxAttempts(-1)
+			} else {
+				b = b.WithMaxAttempts(s.MaxRetries + 1)
+			}
+		}
 		b = applyHandle(b, s.Handle)
 		for _, c := range s.Abort {
 			switch c.K {
@@ -503,7 +575,9 @@ func (env *Env) build(i int, s Spec) failsafe.Policy[int] {
 			OnRetryScheduled(func(e failsafe.ExecutionScheduledEvent[int]) {
 				vrt.EnterUser()
 				defer vrt.ExitUser()
-				env.ev(Event{Policy: i, Name: "scheduled", HasStats: true, Attempts: e.Attempts(), Executions: e.Executions(), Retries: e.Retries(), Hedges: e.Hedges(),
+				env.obs()
+				s0 := env.seqNow()
+				env.ev(Event{Exe: exeOf(e.Context()), Seq0: s0, Policy: i, Name: "scheduled", HasStats: true, Attempts: e.Attempts(), Executions: e.Executions(), Retries: e.Retries(), Hedges: e.Hedges(),
 					LastV: e.LastResult(), LastE: e.LastError(), Delay: e.Delay})
 			})
 		return b.Build()
@@ -587,15 +661,17 @@ func (env *Env) build(i int, s Spec) failsafe.Policy[int] {
 		b := fallback.BuilderWithFunc(func(e failsafe.Execution[int]) (int, error) {
 			vrt.EnterUser()
 			defer vrt.ExitUser()
-			env.FbCalls++
-			env.ev(Event{Policy: i, Name: "fbcall", HasStats: true, Attempts: e.Attempts(), Executions: e.Executions(), Retries: e.Retries(), Hedges: e.Hedges(),
+			env.fbInc()
+			env.obs()
+			s0 := env.seqNow()
+			env.ev(Event{Seq0: s0, Policy: i, Name: "fbcall", HasStats: true, Attempts: e.Attempts(), Executions: e.Executions(), Retries: e.Retries(), Hedges: e.Hedges(),
 				LastV: e.LastResult(), LastE: e.LastError()})
 			return s.FbV, s.FbE
 		})
 		b = applyHandle(b, s.Handle)
 		return b.OnSuccess(env.attemptEv(i, "success")).OnFailure(env.attemptEv(i, "failure")).OnFallbackExecuted(env.doneEv(i, "fallback")).Build()
 	case KCache:
-		c := &MapCache{M: map[string]int{}}
+		c := &MapCache{M: map[string]int{}, env: env, Safe: env.Quiet}
 		for k, v := range s.Prepop {
 			c.M[k] = v
 		}
@@ -616,8 +692,10 @@ func (env *Env) build(i int, s Spec) failsafe.Policy[int] {
 }
 
 // NewEnv builds fresh policy instances for the stack.
-func NewEnv(stack []Spec) *Env {
-	env := &Env{Stack: stack, Breakers: map[int]circuitbreaker.CircuitBreaker[int]{}, Bulks: map[int]bulkhead.Bulkhead[int]{},
+func NewEnv(stack []Spec) *Env { return newEnvQuiet(stack, false) }
+
+func newEnvQuiet(stack []Spec, quiet bool) *Env {
+	env := &Env{Quiet: quiet, Stack: stack, Breakers: map[int]circuitbreaker.CircuitBreaker[int]{}, Bulks: map[int]bulkhead.Bulkhead[int]{},
 		Limiters: map[int]ratelimiter.RateLimiter[int]{}, Caches: map[int]*MapCache{}}
 	for i, s := range stack {
 		env.Policies = append(env.Policies, env.build(i, s))
@@ -665,7 +743,8 @@ func (x *Exe) enter(exec failsafe.Execution[int]) (*Inv, Out) {
 	env := x.Env
 	k := len(x.Invs)
 	o := x.Script[min(k, len(x.Script)-1)]
-	inv := &Inv{Index: k, Start: vrt.Elapsed(), Thread: vrt.ThreadID(), Exec: exec, Tick: env.Tick}
+	env.seq++
+	inv := &Inv{Index: k, Start: vrt.Elapsed(), Thread: vrt.ThreadID(), Exec: exec, Tick: env.Tick, SeqIn: env.seq}
 	x.Invs = append(x.Invs, inv)
 	env.Invs = append(env.Invs, inv)
 	env.InFlight++
@@ -681,6 +760,8 @@ func (x *Exe) enter(exec failsafe.Execution[int]) (*Inv, Out) {
 //go:norace
 func (x *Exe) exit(inv *Inv) {
 	inv.End = vrt.Elapsed()
+	x.Env.seq++
+	inv.SeqOut = x.Env.seq
 	inv.Returned = true
 	x.Env.InFlight--
 }
@@ -699,6 +780,7 @@ func (x *Exe) Fn(exec failsafe.Execution[int]) (int, error) {
 		if !inv.CanceledAtStart {
 			inv.LastV, inv.LastE = exec.LastResult(), exec.LastError()
 		}
+		inv.SeqRead = env.seqNow()
 	}
 	switch {
 	case o.Block:
@@ -739,4 +821,28 @@ func errStr(err error) string {
 		return "nil"
 	}
 	return err.Error()
+}
+
+// ResetObs clears the observations of the previous execution; policy instances and their state stay.
+func (env *Env) ResetObs() {
+	env.Recs, env.Events, env.Invs, env.Exes = nil, nil, nil, nil
+	env.seq, env.FbCalls, env.InFlight, env.MaxFlight = 0, 0, 0, 0
+	env.Completed = false
+	env.CancelAtReturn = nil
+	for _, c := range env.Caches {
+		c.Gets, c.Sets, c.NGetsExec = nil, nil, 0
+		c.GetSeq, c.SetSeq, c.GetFound = nil, nil, nil
+	}
+}
+
+type exeKeyT struct{}
+
+func exeOf(ctx context.Context) int {
+	if ctx == nil {
+		return -1
+	}
+	if v, ok := ctx.Value(exeKeyT{}).(int); ok {
+		return v
+	}
+	return -1
 }
